@@ -633,3 +633,8 @@ class C18(Check):
 # correspondence stream and oracle shared with the other two checks that serve `cache_unobservable`
 from harness import envcachelib as _envcache  # noqa: E402
 _envcache.install(C18)
+
+# the accessors of FormsDict (item / get / attribute access, copy) on Request.query / .forms / .params: an extra
+# correspondence stream and oracle
+from harness import helperslib as _helpers  # noqa: E402
+_helpers.install(C18)
